@@ -337,12 +337,17 @@ namespace net
         return;
       // entailment at the moment the clause is learnt: Phi_model & implementation definitions & !clause unsat
       std::vector<z3::expr> ex = impl_defs();
+      for (auto &e : strong) ex.push_back(e);
       for (auto &p : clause) ex.push_back(!zl(p));
       z3::check_result r = zcheck(ex);
       if (r == z3::sat)
         lemma_failures.push_back(std::string(on[origin]) + " clause " + cls(clause) + " is not entailed by the clauses and the theories");
     }
     std::vector<std::string> lemma_failures;
+    // Reverse direction of one-directional literals (cardinality => literal). The statement leaves open whether an
+    // at-most-one / exactly-one literal is an implication or an equivalence, so inferences are judged against the
+    // equivalence (soundness oracles S1/S4 add these) and verdicts against the implication (S2/S3 do not).
+    std::vector<z3::expr> strong;
 
     // ---- variable creation --------------------------------------------------------------------------------------
     lit new_bool()
@@ -471,7 +476,7 @@ namespace net
       if (!sat.root_level())
         return; // not a root-level verdict
       // S2: a root-level false is justified only if Phi is unsatisfiable
-      std::vector<z3::expr> none;
+      std::vector<z3::expr> none = strong;
       if (zcheck(none) == z3::sat)
         s2_failures.push_back(what + " returned false at root level although the clauses and theories are satisfiable");
     }
@@ -506,6 +511,7 @@ namespace net
       {
         // S2: Phi & D_before & p unsat
         before.push_back(zl(p));
+        for (auto &e : strong) before.push_back(e);
         if (zcheck(before) == z3::sat)
           s2_failures.push_back("assume(" + ls(p) + ") returned false although the clauses, theories, standing decisions and the assumption are satisfiable");
         if (sat.root_level())
@@ -549,8 +555,16 @@ namespace net
       if (!r)
       {
         for (auto &p : lits) before.push_back(zl(p));
+        for (auto &e : strong) before.push_back(e);
         if (zcheck(before) == z3::sat)
           s2_failures.push_back("check(" + cls(lits) + ") returned false although clauses, theories, decisions and the given literals are satisfiable");
+        if (sat.root_level())
+        { // the failure may have been a root-level conflict, after which the network is dead by contract: that is the case
+          // exactly when the clauses and theories are unsatisfiable on their own
+          std::vector<z3::expr> none = strong;
+          if (zcheck(none) != z3::sat)
+            dead = true;
+        }
       }
     }
     void do_simplify()
@@ -568,6 +582,7 @@ namespace net
     {
       if (dead) return;
       std::vector<z3::expr> d = zD();
+      for (auto &e : strong) d.push_back(e);
       z3::expr_vector assigned(z);
       std::vector<lit> as;
       for (auto &p : all_lits)
@@ -607,6 +622,9 @@ namespace net
         q.push_back(v == True ? zl(p) : !zl(p));
       }
       if (all_lits.empty()) return;
+      // "every variable" includes the ones the network created internally (pieces of an equality, Tseitin variables)
+      for (var v = 1; v < sat.verif_n_vars(); ++v)
+        if (sat.value(v) == Undefined) return;
       ++n_total_assignments;
       if (zcheck(q) == z3::unsat)
         fails.push_back("every variable is assigned and propagation succeeded, but the assignment falsifies a clause or is theory-inconsistent");
